@@ -31,6 +31,10 @@ def setup_worker(i):
     ct = f"{ver}/harness/Cargo.toml"
     s = open(ct).read().replace('path = "/repo/', f'path = "{repo}/')
     open(ct, "w").write(s)
+    gl = f"{ver}/harness/src/glue.rs"
+    if os.path.exists(gl):
+        s = open(gl).read().replace('#[path = "/repo/', f'#[path = "{repo}/')
+        open(gl, "w").write(s)
     return repo, ver
 
 
